@@ -329,9 +329,6 @@ var plainScalarKinds = []string{model.KNil, model.KBool, model.KStr, model.KI8, 
 
 func (g *streamGen) scalarKind(t *rapid.T, forTyped bool) string {
 	k := rapid.SampledFrom(plainScalarKinds).Draw(t, "kind")
-	if forTyped && k == model.KNil {
-		k = model.KBool
-	}
 	return k
 }
 
